@@ -31,6 +31,44 @@ fn run_cmd(cmd: &mut Command) -> std::io::Result<std::process::Output> {
     r
 }
 
+/// Run a command with a wall-clock limit; None if it had to be killed.
+fn run_with_timeout(cmd: &mut Command, secs: u64) -> Option<std::process::Output> {
+    use std::io::Read;
+    let mut child = cmd.stdout(std::process::Stdio::piped()).stderr(std::process::Stdio::piped()).spawn().expect("spawn");
+    let mut so = child.stdout.take().unwrap();
+    let mut se = child.stderr.take().unwrap();
+    let t1 = std::thread::spawn(move || {
+        let mut b = Vec::new();
+        let _ = so.read_to_end(&mut b);
+        b
+    });
+    let t2 = std::thread::spawn(move || {
+        let mut b = Vec::new();
+        let _ = se.read_to_end(&mut b);
+        b
+    });
+    let t0 = std::time::Instant::now();
+    loop {
+        crate::progress::tick();
+        match child.try_wait() {
+            Ok(Some(status)) => {
+                return Some(std::process::Output { status, stdout: t1.join().unwrap_or_default(), stderr: t2.join().unwrap_or_default() });
+            }
+            Ok(None) => {
+                if t0.elapsed().as_secs() >= secs {
+                    let _ = child.kill();
+                    let _ = child.wait();
+                    let _ = t1.join();
+                    let _ = t2.join();
+                    return None;
+                }
+                std::thread::sleep(std::time::Duration::from_millis(50));
+            }
+            Err(_) => return None,
+        }
+    }
+}
+
 fn instantiate(template: &Path, out: &Path) {
     let s = std::fs::read_to_string(template).unwrap_or_else(|e| panic!("GDSL_MC_HARNESS: read {:?}: {}", template, e));
     std::fs::write(out, s.replace("@GDSL_REPO@", &repo_dir())).expect("write Cargo.toml");
@@ -679,7 +717,23 @@ pub fn c14(job: &Job, out: &mut Out) {
     let mut total = 0u64;
     for name in names {
         crate::progress::tick();
-        let o = run_cmd(&mut Command::new(target.join("debug").join(&name))).expect("run shard");
+        let o = match run_with_timeout(&mut Command::new(target.join("debug").join(&name)), 120) {
+            Some(o) => o,
+            None => {
+                // the generated programs only build small graphs: not finishing is a hang inside a macro-built graph
+                out.stats.inc("evaluations");
+                out.report(Violation {
+                    property: job.property.clone(),
+                    engine: "progsweep".into(),
+                    flavour: "macros".into(),
+                    class: "generated-program-hangs".into(),
+                    what: format!("the generated program {} (macro invocations + observation) did not finish within 120 s", name),
+                    case: json!({"kind":"c14","tier":job.tier,"src":format!("<hang:{}>", name)}),
+                    order: 0,
+                });
+                continue;
+            }
+        };
         let txt = String::from_utf8_lossy(&o.stdout).to_string();
         let mut done = false;
         for l in txt.lines() {
